@@ -377,7 +377,10 @@ def rule_inputs(rep, m, cname):
             rep.instance(rid, 1, {"config": cname, "function": name, "seed_bytes": ng})
     f = m.funcs.get("ascon_random_feed")
     ab = reach_calls(m, f, "ascon_xof_absorb", helpers)
-    pe, ps = f.params[f.param_index("entropy")], f.params[f.param_index("size")]
+    ie, isz = f.param_index("entropy"), f.param_index("size")
+    if ie is None or isz is None:
+        ie, isz = 1, 2        # ascon_random_feed(state, entropy, size): positional when the names are not in the debug info
+    pe, ps = f.params[ie], f.params[isz]
     if any(ops[1] == pe and ops[2] == ps for _c, ops in ab):
         rep.instance(rid, 1, {"config": cname, "function": "ascon_random_feed"})
     elif any(ops[1] is None or ops[2] is None for _c, ops in ab):
